@@ -115,6 +115,53 @@ def gen_case(rng, nframes, frag=None, mem=None):
     return [cfg, dtok, ops]
 
 
+def boundary_case(rng, mem):
+    """durations exactly on / one tick off every threshold: fragment, 2 x fragment (audio path), 100 ms (discard)"""
+    frag = rng.choice([0, 0, 1, 2, 5, -1])
+    cfg = gen_cfg(rng, frag, mem)
+    f = max(frag, 0)
+    ds = [TICKS * f - 1, TICKS * f, TICKS * f + 1, 2 * TICKS * f - 1, 2 * TICKS * f, 2 * TICKS * f + 1,
+          8999, 9000, 9001, 0, 1, 9000 - 1920, 4500]
+    ops = []
+    t = rng.choice([0, 0, 77, 9000, 2 * TICKS * max(f, 1)])
+    for _ in range(rng.randint(6, 14)):
+        d = max(0, rng.choice(ds))
+        ops.append([0, 1, t, t, payload(rng, 1)])
+        if d:
+            ops.append([0, 2, t + d, t + d, payload(rng, 2)])
+        r = rng.random()
+        if r < 0.45:
+            # the audio path looks at the duration: one frame starts the batch, a second one (<= 100 ms later) checks again
+            a = t + d + rng.choice([0, 1, 10])
+            ops.append([0, 0, a, a, payload(rng, 0)])
+            ops.append([0, 0, a + rng.choice([1, 8999, 9000, 9001]), 0, payload(rng, 0)])
+            ops[-1][3] = ops[-1][2]
+        t = t + d + rng.choice([1, 3600])
+    ops.append([0, 1, t, t, payload(rng, 1)])
+    return [cfg, rng.choice(["", "b"]), ops]
+
+
+def jitter_case(rng, mem):
+    """48 kHz audio (1920 ticks per frame, so the estimate is exact) whose timestamps sit exactly on / next to the
+    +-100 ms resynchronisation window and the 100 ms flush threshold; a key frame now and then so segments are cut"""
+    cfg = gen_cfg(rng, rng.choice([1, 2]), mem)
+    cfg[1] = 48000
+    ops = []
+    k = 0
+    base = rng.choice([0, 9001, 50000])
+    d = 0
+    for i in range(rng.randint(30, 90)):
+        if rng.random() < 0.25:
+            d = rng.choice([0, 9000, -9000, 9001, -9001, 8999, -8999, 1, 1920, 18000, -18000])
+        pts = max(0, base + k * 1920 + d)
+        ops.append([0, 0, pts, pts, payload(rng, 0)])
+        k += rng.choice([1, 1, 1, 1, 2])
+        if i % 12 == 5:
+            v = base + k * 1920
+            ops.append([0, 1, v, v, payload(rng, 1)])
+    return [cfg, "", ops]
+
+
 def rollover_case(rng, mem, frag, extra):
     """fetch a reader and a playlist, roll the window over [extra] more times, then read them"""
     cfg = gen_cfg(rng, frag, mem)
@@ -198,6 +245,11 @@ def run(ck):
                 rc.append(rollover_case(rng, mem, rng.choice([1, 2, 5]), extra))
     ck.stream("fetch-vs-rollover", rc, "C10_run", "C10", "C10_ok", nontrivial=lambda c: True,
               sig=lambda c, e, o: "hls-reader-after-rollover-" + ("memory" if c[0][2] else "disk"))
+    # 2b. thresholds: durations and audio timestamps exactly on and one tick beside every comparison
+    bc = [boundary_case(rng, rng.random() < 0.5) for _ in range(600 if big else 60)]
+    bc += [jitter_case(rng, rng.random() < 0.5) for _ in range(400 if big else 40)]
+    ck.stream("thresholds", bc, "C10_run", "C10", "C10_ok", nontrivial=lambda c: len(c[2]) >= 10,
+              sig=lambda c, e, o: "hls-threshold-" + ("memory" if c[0][2] else "disk"))
     # 3. the float reformulations and "%.3f"
     fl = []
     for nfr in (-1, 0, 1, 2, 5, 10, 600):
